@@ -145,7 +145,8 @@ Inductive o_hop :=
 | SCopy (i : nat) (s : bool)
 | SOp (i : nat) (s : bool) (op : o_op)
 | SUpdFrom (ior : bool) (i : nat) (s : bool) (j : nat) (t : bool)
-| SFromkeys (keys : list nat) (v : nat).
+| SFromkeys (keys : list nat) (v : nat)
+| SEq (i : nat) (s : bool) (j : nat) (t : bool).
 
 (* a freshly built OneToOne(pairs): one-to-one, inside dict(pairs), and every
    value of dict(pairs) is kept under one of its keys *)
@@ -205,6 +206,13 @@ Definition o_hop_ok (before : list oview) (hop : o_hop) (res : sres) (after : li
         | [w] => oto_healthy w && same_set (ov_fwd w) (r_update [] kvs)
         | _ => false
         end
+  | SEq i s j t =>            (* == : true exactly when both are the same relation; nothing changes *)
+      match nth_error before i, nth_error before j with
+      | Some a, Some b =>
+          list_eqb oview_eqb before after &&
+          sres_is res (SOk (SBool (same_set (o_rel s a) (o_rel t b))))
+      | _, _ => false
+      end
   end.
 
 (* ---------------------------------------------------------------------- *)
